@@ -55,7 +55,7 @@ def generate(seed, tier):
         spec = gen_instance(rng, max_jobs=4, max_machines=4, max_ops=5)
         n = rng.randint(1, min(15, n_ops(spec)))
     api = rng.choice(["gif", "gif", "video", "creator_gif", "solver_gif"])
-    cfg = {"instance": spec, "api": api, "plot": "real" if (not long and n <= 5 and rng.random() < 0.25) else "stub",
+    cfg = {"instance": spec, "api": api, "plot": "real" if (not long and n <= 6 and rng.random() < 0.5) else "stub",
            "earlier_episode": rng.randint(1, 6) if rng.random() < 0.3 else 0,
            "then_shorter": rng.random() < 0.2, "precreate_dir": rng.random() < 0.4,
            "frames_dir_name": rng.choice(["frames", "la40_gantt_chart_frames", "run7/frames", "frames_2024"]),
